@@ -166,7 +166,7 @@ pub fn c01(cfg: &Cfg, idx: u64, st: &mut Stats) {
 // ------------------------------------------------------------------- C06
 
 const UNIVERSE: [&[u8]; 5] = [b"", b"a", b"aa", b"ab", b"b"];
-pub const C06_VARIANTS: u64 = 8;
+pub const C06_VARIANTS: u64 = 12;
 
 pub fn c06_exhaustive_len(cfg: &Cfg) -> u32 {
     match cfg.tier {
@@ -289,8 +289,29 @@ pub fn c06(cfg: &Cfg, idx: u64, st: &mut Stats) {
         let per = c06_histories(maxlen);
         let variant = idx / per;
         let h = idx % per;
-        let case = c06_exhaustive_case(h, variant, maxlen);
-        st.report("C06", &Case::Build(case));
+        if variant >= 8 {
+            // the one-call entry points: the whole history is the argument
+            let base = c06_exhaustive_case(h, 0, maxlen);
+            let items: Vec<Item> = base
+                .task
+                .ops
+                .iter()
+                .map(|o| match o {
+                    Op::Ins(k, v) => (k.clone(), *v),
+                    _ => unreachable!(),
+                })
+                .collect();
+            let entry = [
+                crate::multi::MemFront::SetFromIter,
+                crate::multi::MemFront::MapFromIter,
+                crate::multi::MemFront::FstFromIterSet,
+                crate::multi::MemFront::FstFromIterMap,
+            ][(variant - 8) as usize];
+            st.report("C06", &Case::FromIter(crate::multi::FromIterCase { entry, items }));
+        } else {
+            let case = c06_exhaustive_case(h, variant, maxlen);
+            st.report("C06", &Case::Build(case));
+        }
         if idx == ex - 1 {
             st.notes.insert(
                 "exhaustive_histories".into(),
@@ -375,6 +396,24 @@ pub fn c06(cfg: &Cfg, idx: u64, st: &mut Stats) {
                 ops.push(Op::Ins(k, v));
             }
         }
+    }
+    if rng.chance(1, 8) {
+        // flatten the history into the argument of a from_iter call
+        let mut items: Vec<Item> = Vec::new();
+        for o in &ops {
+            match o {
+                Op::Ins(k, v) => items.push((k.clone(), *v)),
+                Op::Add(k) => items.push((k.clone(), 0)),
+                Op::ExtIter(it) | Op::ExtStream(it, _) => items.extend(it.iter().cloned()),
+            }
+        }
+        let entry = if front == Front::Set {
+            *rng.pick(&[crate::multi::MemFront::SetFromIter, crate::multi::MemFront::FstFromIterSet])
+        } else {
+            *rng.pick(&[crate::multi::MemFront::MapFromIter, crate::multi::MemFront::FstFromIterMap])
+        };
+        st.report("C06", &Case::FromIter(crate::multi::FromIterCase { entry, items }));
+        return;
     }
     let case = BuildCase {
         task: TaskSpec { front, registry: gen::geometry(&mut rng), ops, fin: gen::fin(&mut rng) },
@@ -908,7 +947,28 @@ pub fn c13_cases(cfg: &Cfg) -> Vec<MemBuildCase> {
             }
         }
     }
+    // other fan-outs and key lengths at one scale (incl. the 256-way node)
+    for (i, (f, l)) in [(2u32, 40u32), (256, 8), (64, 24), (256, 64), (10, 16), (33, 12)].iter().enumerate() {
+        out.push(MemBuildCase {
+            fam: KeyFamily { n: 200_000, fanout: *f, keylen: *l, seed: seed ^ (*f as u64) << 8, pairs: i % 2 == 1 },
+            map: i % 2 == 0,
+            registry: [None, Some((128, 2)), Some((3, 3))][i % 3],
+            bufcap: None,
+            every: 1000,
+            shape: shapes[i % shapes.len()],
+        });
+    }
     if cfg.tier == Tier::Thorough {
+        for map in [false, true] {
+            out.push(MemBuildCase {
+                fam: KeyFamily { n: 30_000_000, fanout: 26, keylen: 13, seed: seed ^ 99, pairs: !map },
+                map,
+                registry: None,
+                bufcap: None,
+                every: 10_000,
+                shape: Shape::Full,
+            });
+        }
         for (f, l) in [(2u32, 40u32), (10, 16), (64, 24), (256, 64), (256, 8)] {
             for g in [None, Some((128, 2)), Some((0, 0))] {
                 out.push(MemBuildCase {
